@@ -4,6 +4,9 @@ import (
 	"bytes"
 	"encoding/json"
 	"fmt"
+	"math"
+	"strconv"
+
 	"github.com/shurcooL/go-goon"
 	"github.com/ugorji/go/codec"
 	"reflect"
@@ -132,6 +135,14 @@ func SexpToJson(exp Sexp) string {
 		return jsonQuote(e.name)
 	case *SexpStr:
 		return jsonQuote(e.S)
+	case *SexpFloat:
+		if math.IsNaN(e.Val) || math.IsInf(e.Val, 0) {
+			return exp.SexpString(nil) // no JSON form
+		}
+		// shortest form, with an exponent for very large and very small
+		// magnitudes: hundreds of digits are legal JSON but are not
+		// decoded reliably (1e-232 written out came back as 3e24).
+		return strconv.FormatFloat(e.Val, 'g', -1, 64)
 	case *SexpSentinel:
 		if e == SexpNull {
 			return "null"
